@@ -153,6 +153,12 @@ def cases(tier, seed):
         for pt in SCALE_POINTS:
             for mform in ("ag", "nabla"):
                 out.append({"form": "scale", "fn": fi, "pt": pt, "mform": mform})
+    # the two operators used one after the other on the same function in ONE interpreter (what the first evaluation leaves
+    # cached on the function's parse tree must not change the second), at whole-valued and other points
+    for fi in range(len(SEQ_FNS)):
+        for pt in SEQ_POINTS:
+            for order in (("nabla", "ag"), ("ag", "nabla"), ("ag", "ag"), ("nabla", "ag", "ag")):
+                out.append({"form": "sequence", "fn": fi, "pt": pt, "order": list(order)})
     n += len(out)
     tries = 0
     while len(out) < n and tries < n * 30:
@@ -203,6 +209,50 @@ def init_shard(tier, seed):
 MAT_FNS = [("{+/,/x*x}", lambda m: 2 * m), ("{+/,/x^3}", lambda m: 3 * m * m), ("{+/,/x}", lambda m: m * 0 + 1.0), ("{+/,/(x*x)+2.0*x}", lambda m: 2 * m + 2.0)]
 MAT_POINTS = ["[[0.5 1.5] [2.0 0.7]]", "[[0.5 1.5 1.2] [2.0 0.7 1.5]]", "+[[0.5 1.5 1.2] [2.0 0.7 1.5]]", "|[[0.5 1.5] [2.0 0.7] [1.2 1.2]]",
               "+[[0.5 1.5] [2.0 0.7]]", "[[0.5 1.5] [2.0 0.7] [1.2 1.2]]@[2 0]", "+|[[0.5 1.5 1.2] [2.0 0.7 1.5]]", "[[1 2] [3 4]]", "+[[1 2 3] [4 5 6]]"]
+
+
+SEQ_FNS = [("{+/x^2}", lambda v: 2 * v), ("{((+/x^2)+(+/x))%#x}", lambda v: (2 * v + 1) / len(v)), ("{+/x^3}", lambda v: 3 * v * v),
+           ("{(+/x*x)+(+/x^2)}", lambda v: 4 * v), ("{(+/x^#x)+(+/x)}", lambda v: len(v) * v ** (len(v) - 1) + 1)]
+SEQ_POINTS = ["[1.0 2.0 3.0]", "[2.0 2.0]", "[1.5 2.5 3.5]", "[3.0 1.0]"]
+
+
+def _run_sequence(case, res):
+    import numpy as np
+    cnt = res["counters"]
+    ftext, grad = SEQ_FNS[case["fn"]]
+    ptext = case["pt"]
+    show = {"program": "g::%s; p::%s; %s" % (ftext, ptext, "; ".join("g:>p" if o == "ag" else "p∇g" for o in case["order"]))}
+    res["show"] = show
+    res["key"] = show["program"]
+    for backend in (None, "torch"):
+        name = backend or "numpy"
+        k = kl.new(backend)
+        kl.ev(k, "g::" + ftext)
+        pv = kl.ev(k, "p::" + ptext)
+        pt = np.array(_flat(canon(pv[1])), dtype=float)
+        exp = grad(pt)
+        for step, o in enumerate(case["order"]):
+            r = kl.ev(k, "g:>p" if o == "ag" else "p∇g")
+            engine = "autograd" if (name == "torch" and o == "ag") else "numeric"
+            if name == "torch" and engine == "numeric":
+                continue               # executed for its effect on the interpreter's state; its own value is a listed finding
+            sig0 = "sequence|%s|%s|step%d-after-%s" % (o, name, step, "+".join(case["order"][:step]) or "nothing")
+            if r[0] != "ok":
+                res["violations"].append({"sig": sig0 + "|raises:" + r[1], "what": "%s on %s: step %d raised %s %s" % (show["program"], name, step, r[1], r[2][:80]), "detail": show})
+                break
+            try:
+                got = np.array(_flat(canon(r[1])), dtype=float)
+            except Exception:
+                res["violations"].append({"sig": sig0 + "|non-numeric", "what": "%s on %s: step %d returned %s" % (show["program"], name, step, brief(canon(r[1]))), "detail": show})
+                break
+            res["nontrivial"] = True
+            cnt["gradients_compared_" + name] = cnt.get("gradients_compared_" + name, 0) + 1
+            cnt["sequence_steps"] = cnt.get("sequence_steps", 0) + 1
+            rel, ab = (1e-3, 1e-4) if engine == "autograd" else (1e-4, 1e-6)
+            if got.shape != exp.shape or not np.all(np.abs(got - exp) <= np.maximum(ab, rel * np.abs(exp))):
+                res["violations"].append({"sig": sig0 + "|" + ("shape" if got.shape != exp.shape else "value"),
+                                          "what": "%s on %s: step %d (%s) returned %s, exact gradient %s" % (show["program"], name, step, o, got.tolist(), exp.tolist()), "detail": show})
+                break
 
 
 SCALE_FNS = [("{(x*x)+x+1}", lambda v: 2 * v + 1, True), ("{+/(x*x)+x}", lambda v: 2 * v + 1, False), ("{+/(3*x)+x^3}", lambda v: 3 + 3 * v * v, False),
@@ -437,6 +487,9 @@ def run_case(ctx, case):
     cnt = res["counters"]
     if case.get("form") == "matrix":
         _run_matrix(case, res)
+        return res
+    if case.get("form") == "sequence":
+        _run_sequence(case, res)
         return res
     if case.get("form") == "scale":
         _run_scale(case, res)
